@@ -54,7 +54,7 @@ def sample_flags(rng):
 
 def gen_case(chk, i):
     rng = chk.rng("case", i)
-    fam = rng.choice(["types", "types", "funcs", "names", "names", "cxx", "hostile", "hostile-cxx"])
+    fam = rng.choice(["types", "types", "funcs", "names", "names", "cxx", "cxx-classes", "hostile", "hostile-cxx"])
     d = chk.dir("c%d" % (i % 64))
     cargs, ext = [], "h"
     model = None
@@ -69,6 +69,11 @@ def gen_case(chk, i):
         fam = "names" if sub == "clean" else "names:" + sub
     elif fam == "cxx":
         text, ext, cargs = gen_funcs.gen_cxx(rng, rng.randint(6, 20)), "hpp", ["-std=c++17"]
+    elif fam == "cxx-classes":
+        # classes with overloaded constructors, destructors, const / static / virtual / overloaded methods whose names (and some field names)
+        # are Rust keywords or the names bindgen itself gives to wrapper methods and synthetic fields (new, new1, destruct, _base, vtable_, ...)
+        from .. import hcxx
+        text, ext, cargs = hcxx.header(hcxx.generate(rng, hostile_names=True)), "hpp", ["-std=c++14"]
     elif fam == "hostile":
         parts = rng.sample(hostile.C, rng.randint(1, 3))
         text = "\n".join(p[1] for p in parts) + "\n"
@@ -90,7 +95,7 @@ def gen_case(chk, i):
         cargs = ["-I", corpus.HEADERS] + list(e[2])
     p = write(os.path.join(d, "c%d.%s" % (i, ext)), text)
     flags = sample_flags(rng)
-    if fam.startswith("hostile") or fam == "cxx":
+    if fam.startswith("hostile") or fam in ("cxx", "cxx-classes"):
         flags = [f for f in flags if f not in NOT_FOR_HOSTILE]
     if ext == "hpp":
         # C-only naming options: with C++ namespaces they give inconsistent names (see DESIGN.md §6)
@@ -167,6 +172,10 @@ def signature(err, text, flags, model, fam):
     pr = optsets.model_predicates(model) if model is not None else None
     if fam.startswith("names:") or fam.startswith("hostile:"):
         return "c01." + fam
+    if fam == "cxx-classes" and "E0124" in codes and set(codes) <= {"E0124", "E0080"}:
+        dup = set(re.findall(r"field `(\w+)` is already declared", err))
+        if dup and dup <= {"vtable_", "_base", "_base_1"} and all(re.search(r"\b%s;" % re.escape(x), text) for x in dup):
+            return "c01.cxx-user-field-named-like-synthetic-field"
     if codes == ["E0605"] and re.search(r"enum-style (newtype|bitfield|newtype_global)", fl.replace("--default-", "")) and (pr is None or pr["enum_bitfield"] or fam != "types"):
         return "c01.enum-bitfield-newtype-cast"
     if "E0588" in codes and set(codes) <= {"E0588", "E0080"}:
